@@ -119,6 +119,11 @@ def gen(rng, tier):
             for xs in itertools.product(vals, repeat=cnt):
                 for op in ('prod', 'prodref'):
                     yield '%s %d %s' % (op, bits, ','.join(hx(x) for x in xs) if xs else '-')
+                    if bits >= 2 and cnt >= 1:
+                        for gap in range(cnt + 1):
+                            t = [hx(x) for x in xs]
+                            t.insert(gap, 'N')
+                            yield '%s %d %s' % (op, bits, ','.join(t))
     for b1, b2, br in WIDEBAD:
         for _ in range(3):
             yield 'widebad %d %d %d %s %s' % (b1, b2, br, hx(value(rng, b1)), hx(value(rng, b2)))
@@ -162,7 +167,12 @@ def gen(rng, tier):
             bits = rng.choice(GRID_ALL)
             cnt = rng.choice([0, 1, 2, 3, 4, 6])
             xs = [opnd(rng, bits) if rng.random() < 0.7 else rng.choice([1, 2, 3]) % (1 << bits) for _ in range(cnt)]
-            yield '%s %d %s' % (rng.choice(['prod', 'prodref']), bits, ','.join(hx(x) for x in xs) if xs else '-')
+            toks = [hx(x) for x in xs]
+            if rng.random() < 0.35:
+                # a non-fused iterator: `None` somewhere (also first / last), items after it must not count
+                for _ in range(rng.choice([1, 1, 2])):
+                    toks.insert(rng.randrange(len(toks) + 1), 'N')
+            yield '%s %d %s' % (rng.choice(['prod', 'prodref']), bits, ','.join(toks) if toks else '-')
             k += 1
 
 
